@@ -12,14 +12,14 @@ UI_ROOTS = ["radar::handle_keyevent", "radar::handle_mouseevent", "radar::draw",
 
 # panic sites tolerated in the UI code: (function (public path, closures folded), kind:detail) -> reason
 ALLOW = {
-    ("radar::handle_keyevent", "assert:Overflow:Add"): "selected + 1 on a usize row index: needs 2^64 key presses",
+    ("radar::handle_keyevent", "assert:Overflow:Add:usize"): "selected + 1 on a usize row index: needs 2^64 key presses",
     ("radar::handle_mouseevent", "call:slice-index"): "btr[0..2] / bottom_chunks[1]: vectors built by draw() from Layout::split over literal constraint lists of length >= 3 / 2",
-    ("radar::handle_mouseevent", "assert:Overflow:Add"): "Rect.y + Rect.height of a layout rectangle inside the u16 terminal area",
+    ("radar::handle_mouseevent", "assert:Overflow:Add:u16"): "Rect.y + Rect.height of a layout rectangle inside the u16 terminal area",
     ("radar::airplanes::build_tab_airplanes", "call:unwrap"): "get(*key) for a key just yielded by keys() of the same immutably borrowed map",
     ("radar::airplanes::build_tab_airplanes", "assert:BoundsCheck"): "chunks[1]: Layout::split over a two-element constraint list",
     ("radar::stats::build_tab_stats", "call:unwrap"): "constant time-format description; position/distance of the farthest aircraft are Some together (C14 R3); formatting an OffsetDateTime with that description",
     ("radar::stats::build_tab_stats", "assert:BoundsCheck"): "chunks[1]: Layout::split over a two-element constraint list",
-    ("radar::stats::Stats::update", "assert:Overflow:Add"): "total_airplanes += 1 on u32: needs 2^32 newly added aircraft",
+    ("radar::stats::Stats::update", "assert:Overflow:Add:u32"): "total_airplanes += 1 on u32: needs 2^32 newly added aircraft",
     ("radar::map::build_tab_map", "assert:BoundsCheck"): "chunks[1]: Layout::split over a two-element constraint list",
     ("radar::coverage::build_tab_coverage", "assert:BoundsCheck"): "chunks[1]: Layout::split over a two-element constraint list",
     ("radar::help::build_tab_help", "assert:BoundsCheck"): "chunks[1]: Layout::split over a two-element constraint list",
@@ -27,9 +27,19 @@ ALLOW = {
     ("radar::draw", "call:slice-index"): "vectors returned by Layout::split over literal constraint lists",
     ("radar::draw", "call:unwrap"): "terminal.draw(): an I/O error of the terminal backend is outside the property (operator actions)",
     ("radar::draw_bottom_chunks", "assert:BoundsCheck"): "Layout::split over literal constraint lists",
-    ("radar::coverage::populate_coverage", "assert:Overflow:Add"): "per-cell hit counter (u32): one increment per different aircraft seen at the cell",
-    ("radar::coverage::build_tab_coverage", "assert:Overflow:Mul"): "100 + seen_number * 50 on the u32 per-cell counter: needs 85 million different aircraft at one cell",
-    ("radar::coverage::build_tab_coverage", "assert:Overflow:Add"): "100 + seen_number * 50 on the u32 per-cell counter: needs 85 million different aircraft at one cell",
+    ("radar::coverage::populate_coverage", "assert:Overflow:Add:u32"): "per-cell hit counter (u32): one increment per different aircraft seen at the cell",
+    ("radar::coverage::build_tab_coverage", "assert:Overflow:Mul:u32"): "100 + seen_number * 50 on the u32 per-cell counter: needs 85 million different aircraft at one cell",
+    ("radar::coverage::build_tab_coverage", "assert:Overflow:Add:u32"): "100 + seen_number * 50 on the u32 per-cell counter: needs 85 million different aircraft at one cell",
+}
+
+
+# number of sites each allow-listed reason was confirmed for (default 1)
+ALLOW_COUNT = {
+    ("radar::draw_bottom_chunks", "assert:BoundsCheck"): 5,
+    ("radar::handle_mouseevent", "assert:Overflow:Add:u16"): 3,
+    ("radar::handle_mouseevent", "call:slice-index"): 10,
+    ("radar::help::build_tab_help", "assert:BoundsCheck"): 5,       # chunks[1], horizontal_chunks[1], vertical_chunks[1..3] of 3- and 5-element lists
+    ("radar::stats::build_tab_stats", "call:unwrap"): 5,
 }
 
 
@@ -87,6 +97,7 @@ def ui_panic_rule(rep, prog):
     rid = rep.rule("R2", "every panic site reachable from the key/mouse handlers, the draw functions and the statistics update is allow-listed with a reason (anything else can crash the client on an operator action)")
     fns = reachable_fns(prog, UI_ROOTS, {"radar"})
     n = 0
+    used = {}
     for path in sorted(fns):
         fn = prog.fns[path]
         for kind, detail, blk, sp in panic_sites(prog, fn):
@@ -96,8 +107,15 @@ def ui_panic_rule(rep, prog):
             key = (pub_fn(path), "%s:%s" % (kind, detail))
             rep.instance(rid, "%s|%s:%s|%s" % (pub_fn(path), kind, detail, site_where(sp)), sample={"fn": pub_fn(path), "site": "%s:%s" % (kind, detail), "at": site_where(sp), "allowed": ALLOW.get(key)} if n <= 3 else None)
             if key in ALLOW:
+                used[key] = used.get(key, 0) + 1
                 continue
             rep.violation("R2", "%s:%s:%s" % (pub_fn(path), kind, detail), "%s: unguarded panic site %s %s at %s is reachable from an operator action / redraw" % (pub_fn(path), kind, detail, site_where(sp)), site=site_where(sp))
+    # an allow-listed reason covers the sites counted when it was written, not later additions of the same kind in that function
+    for key, cnt in sorted(used.items()):
+        lim = ALLOW_COUNT.get(key, 1)
+        if cnt > lim:
+            rep.violation("R2", "%s:%s:more-sites" % key, "%s now has %d panic sites of kind %s; the allow-listed reason was confirmed for %d (\"%s\")" % (key[0], cnt, key[1], lim, ALLOW[key]))
+    rep.extra["allow_list_use"] = {"%s|%s" % k: v for k, v in sorted(used.items())}
     rep.floor("UI functions scanned", 12, len(fns))
     rep.floor("UI panic sites inventoried", 10, n)
 
